@@ -213,6 +213,17 @@ def judge_probe(ctx, probe, witness):
     probe.hits = []
 
 
+def unjson(x):
+    """Undo core.jsonable for a replayed witness: 'hex:..' strings back to bytes."""
+    if isinstance(x, str) and x.startswith("hex:"):
+        return bytes.fromhex(x[4:])
+    if isinstance(x, list):
+        return [unjson(v) for v in x]
+    if isinstance(x, dict):
+        return {k: unjson(v) for k, v in x.items()}
+    return x
+
+
 def fmt_ops(ops):
     out = []
     for o in ops:
@@ -501,7 +512,7 @@ def run(ctx):
             w = ctx.replay.get("witness") or {}
             if "workload" in w:
                 for _ in range(3):
-                    run_plan(ctx, eng, probe, w["workload"], sched.Plan.from_json(w["plan"]), stats)
+                    run_plan(ctx, eng, probe, unjson(w["workload"]), sched.Plan.from_json(w["plan"]), stats)
                 ctx.require("histories_checked", 1)
                 return
         sequential(ctx, eng, ctx.pick(1500, 30000), probe)
